@@ -58,6 +58,8 @@ type Sym struct {
 	Top      *ssa.Function
 	FC       *FuncContract
 	lines    []string
+	definedNames map[string]bool // names introduced by define-fun (macros: unusable inside patterns)
+	qvSort   map[string]string // sort of each bound variable name of the contract language (for quantified heap facts)
 	declared map[string]bool
 	nfresh   int
 	mapSort  map[string]string
@@ -173,6 +175,10 @@ func (s *Sym) define(base, sort, term string) string {
 	s.nfresh++
 	n := q(base + "@" + strconv.Itoa(s.nfresh))
 	s.emit(fmt.Sprintf("(define-fun %s () %s %s)", n, sort, term))
+	if s.definedNames == nil {
+		s.definedNames = map[string]bool{}
+	}
+	s.definedNames[n] = true
 	return n
 }
 
